@@ -253,6 +253,25 @@ func Shapes() []*Grammar {
 	return gs
 }
 
+// Emission is a small layer about how a grammar is written down rather than what it means:
+// block comments inside actions and predicates, header comments, user imports that duplicate a
+// package the generated code imports itself, an aliased and a grouped import. The parsers must
+// still build and behave like the reference (the emitted text as such is C08's subject, which
+// no check here decides; a parser that does not build recognises nothing, which is C01's).
+func Emission() []*Grammar {
+	a, b := func() *E { return Lit("a") }, func() *E { return Lit("b") }
+	var gs []*Grammar
+	for style := 1; style <= 2; style++ {
+		g := New(fmt.Sprintf("emit/style%d", style), Seq(Cap(Plus(a())), Act(), Alt(Seq(Pred(0), b(), Act()), Seq(Not(Dot()), Act()))))
+		g.Style = style
+		gs = append(gs, g)
+		g2 := New(fmt.Sprintf("emit/style%d-rules", style), Seq(Ref(1), Opt(Ref(2)), Not(Dot())), Seq(Cap(a()), Act()), Seq(Pred(0), Cap(Lit("\x01")), Act(), Class(C('\t'), C(0x7f))))
+		g2.Style = style
+		gs = append(gs, g2)
+	}
+	return gs
+}
+
 // Long is the long-input layer: grammars with loops and recursion, each with a concrete filler
 // cycle that keeps the parse going, so that inputs of hundreds to 2^16 runes (all concrete but
 // two arbitrary "hole" runes) reach wide trees, deep nesting, many memo entries and offsets
